@@ -41,7 +41,8 @@ pub fn run(ctx: &Ctx) -> Outcome {
     );
     hook::install();
     let target = ctx.args.u64("sequences", ctx.q(400, 20_000));
-    let mut i = 0u64;
+    let mut i = ctx.args.u64("first-sequence", 0);
+    let target = target + i;
     while i < target && ctx.time_left() {
         let mut rng = Rng::derive(ctx.seed, ctx.shard, i);
         let (cfg, is_set) = if let Some(r) = replay_cfg(ctx) { r } else { draw_cfg(&mut rng, ctx.thorough) };
